@@ -62,13 +62,20 @@ func c08Build(cfg map[string]interface{}, rng *rand.Rand) (p4 string, grid [][2]
 	case "longlat":
 		lats = []float64{-80, -10, 35, 75}
 	case "merc":
-		s += " +lon_0=" + F(lon0) + " +k=" + F(r(0.9, 1.0)) + " +x_0=" + F(r(-1e6, 1e6)) + " +y_0=" + F(r(-1e6, 1e6))
+		if rng.Intn(3) == 0 { // the scale given through the latitude of true scale
+			s += " +lon_0=" + F(lon0) + " +lat_ts=" + F(r(5, 60)) + " +x_0=" + F(r(-1e6, 1e6)) + " +y_0=" + F(r(-1e6, 1e6))
+		} else {
+			s += " +lon_0=" + F(lon0) + " +k=" + F(r(0.9, 1.0)) + " +x_0=" + F(r(-1e6, 1e6)) + " +y_0=" + F(r(-1e6, 1e6))
+		}
 		lats = []float64{-84.9, -40, 0.5, 60, 84.9}
 	case "lcc", "aea", "eqdc":
 		lat1 := r(15, 45)
 		lat2 := lat1 + r(5, 25)
 		if rng.Intn(2) == 0 { // southern hemisphere cone
 			lat1, lat2 = -lat1, -lat2
+		}
+		if rng.Intn(4) == 0 { // a single standard parallel
+			lat2 = lat1
 		}
 		if hasHome { // parallels around the datum's home latitude (never symmetric about the equator)
 			lat1, lat2 = math.Round(home[1])-4, math.Round(home[1])+5
